@@ -88,8 +88,7 @@ Disputed(v) == CASE v.t = "s" -> HasDisputedWS(v.v)
                  [] v.t = "a" -> \E q \in DOMAIN v.v : Disputed(v.v[q])
                  [] OTHER -> FALSE
 \* abstract_plus's number text for non-integral sums is not known to the specification
-Scope(cc) == IF \E j \in DOMAIN Vals(cc) : Disputed(Vals(cc)[j]) THEN <<>>
-             ELSE IF cc.kind = "hbin" /\ cc.o = 4 THEN <<>>      \* no statement pins abstract_plus's value; a crash is always C01
+Scope(cc) == IF cc.kind = "hbin" /\ cc.o = 4 THEN <<>>      \* no statement pins abstract_plus's value; a crash is always C01
              ELSE <<"C10">>
 
 \* -------- invariants on the specification
